@@ -15,8 +15,10 @@ def one(sid, prop, tier, vjobs):
         for f in ("config.h", "site_def.h"):
             shutil.copy(os.path.join("/repo", f), wt)
         r = subprocess.run(["git", "-C", wt, "apply", os.path.join(sd, "patch.diff")], capture_output=True, text=True)
+        if r.returncode != 0:     # the seed was written against an older HEAD (before later fix: commits): retry with context fuzz
+            r = subprocess.run("patch -d %s -p1 --fuzz=3 --no-backup-if-mismatch < %s" % (wt, os.path.join(sd, "patch.diff")), shell=True, capture_output=True, text=True)
         if r.returncode != 0:
-            return sid, prop, None, "patch does not apply: " + r.stderr[-200:]
+            return sid, prop, None, "patch does not apply: " + (r.stderr + r.stdout)[-200:]
         env = dict(os.environ, VERIF_REPO=wt, VERIF_EVIDENCE_DIR=os.path.join(wt, "evidence"), VERIF_REPLAY_DIR=os.path.join(wt, "replays"), VERIF_NO_SMOKE="1", VERIF_JOBS=str(vjobs))
         r = subprocess.run([os.path.join(V, "check"), prop, "--tier", tier], capture_output=True, text=True, env=env, cwd=V)
         hits = []
